@@ -195,10 +195,14 @@ class Ref:
                             bound[key] = v
                         name.append(v)
                     out.append(name)
-                    if name:
+                    # near misses: every position in turn gets another value (a constrained pattern violated at its first, its
+                    # middle or its last occurrence alike)
+                    for pos in range(len(name)):
                         m = list(name)
-                        m[rng.randrange(len(m))] = rng.choice(alphabet + all_opts)
-                        out.append(m)
+                        alts = [v for v in alphabet + all_opts if v != name[pos]]
+                        if alts:
+                            m[pos] = rng.choice(alts)
+                            out.append(m)
         return out
 
     def match(self, name):
@@ -595,7 +599,15 @@ def template_schemas(rng, with_signers):
                               R('#memo', [('ref', '#prof'), L(b)], None, [k2]), R(k2, [L('L2'), P(p1)])]})
         # a rule with a constrained temporary referenced twice (three times) inside one key rule / one packet rule
         out.append({'rules': [R('#seg', [L(a), P('_v')], [[('_v', [L(b), L(c)])]]), R(k1, [L('L1'), ('ref', '#seg'), ('ref', '#seg')]),
-                              R('#pkt', [L('L0'), P(p1)], None, [k1])]})
+                              R('#pkt', [L('L0'), P(p1)], None, [k1])],
+                    # each reference has its own temporary: the two may take different allowed values; each is constrained
+                    'probes': [(['L0', 'zz'], ['L1', a, b, a, c]), (['L0', 'zz'], ['L1', a, c, a, b]), (['L0', 'zz'], ['L1', a, b, a, b]),
+                               (['L0', 'zz'], ['L1', a, b, a, 'zz']), (['L0', 'zz'], ['L1', a, 'zz', a, c]), (['L0', 'zz'], ['L1', a, 'zz', a, 'zz'])]})
+        # one temporary name used twice in a rule, with a constraint: every occurrence is constrained (and they are independent)
+        out.append({'rules': [R(k1, [L('L1'), P('_r'), P(p1), P('_r')], [[('_r', [L(a), L(b)])]]), R('#pkt', [L('L0'), P(p1)], None, [k1])],
+                    'probes': [(['L0', 'zz'], ['L1', a, 'zz', b]), (['L0', 'zz'], ['L1', b, 'zz', b]), (['L0', 'zz'], ['L1', c, 'zz', a]),
+                               (['L0', 'zz'], ['L1', 'zz', 'zz', b]), (['L0', 'zz'], ['L1', a, 'zz', c]), (['L0', 'zz'], ['L1', a, 'zz', 'zz']),
+                               (['L0', 'zz'], ['L1', a, b, a])]})
         out.append({'rules': [R('#seg', [P('_v'), L(a)], [[('_v', [L(b), P(p1)])]]), R(k1, [L('L1'), P(p1), ('ref', '#seg'), ('ref', '#seg'), ('ref', '#seg')]),
                               R('#pkt', [L('L0'), ('ref', '#seg'), P(p1), ('ref', '#seg')], None, [k1])]})
         # the key-name match backs out of a dead-end branch in which it had re-used a pattern bound by the packet name; the sibling
